@@ -1,6 +1,7 @@
 package props
 
 import (
+	"bytes"
 	"encoding/json"
 	"fmt"
 	"os"
@@ -143,6 +144,7 @@ type c16Replay struct {
 	Options string `json:"options"`
 	Hex     string `json:"stream_hex"`
 	Generic bool   `json:"generic,omitempty"`
+	Chain   []int  `json:"chain_member_lengths,omitempty"`
 }
 
 func init() {
@@ -155,6 +157,24 @@ func init() {
 		Replay: func(raw json.RawMessage) (string, error) {
 			var r c16Replay
 			json.Unmarshal(raw, &r)
+			if r.Generic && len(r.Chain) > 0 {
+				data := vx.UnHex(r.Hex)
+				base := safeDecodeChained(bytes.NewReader(data))
+				var Ms []map[int]int
+				var Fs []map[uint32]int
+				off := 0
+				for _, n := range r.Chain {
+					M, F, _ := refCounts(data[off : off+n])
+					Ms, Fs = append(Ms, M), append(Fs, F)
+					off += n
+				}
+				for cfg := 1; cfg < len(c16Configs); cfg++ {
+					if msg, _ := c16ChainCheck(data, r.Chain, cfg, base.Files, Ms, Fs); msg != "" {
+						return "", fmt.Errorf("%s: %s", r.Names, msg)
+					}
+				}
+				return "ok", nil
+			}
 			if r.Generic {
 				if msg, _ := c16Generic(vx.UnHex(r.Hex)); msg != "" {
 					return "", fmt.Errorf("%s: %s", r.Names, msg)
@@ -384,6 +404,7 @@ func c16Check(word []int, cut int, onState func(h uint64)) (string, string) {
 
 func runC16(w *vx.W) {
 	c16GenericFamilies(w)
+	c16Chains(w)
 	maxLen := 3
 	if !w.Quick() {
 		maxLen = 4
@@ -584,4 +605,121 @@ func c16GenericFamilies(w *vx.W) {
 			report(it.Name, it.B, msg, class)
 		}
 	}
+}
+
+// ---- chains: DecodeChained with every option configuration over ordered pairs of mix-family files; the lists of
+// each returned File must be the counters of that member alone (nothing carried across a file boundary), the content
+// the same as without options.
+func c16Chains(w *vx.W) {
+	alpha := mixAlphabet()
+	type word struct {
+		name string
+		b    []byte
+		M    map[int]int
+		F    map[uint32]int
+	}
+	var words []word
+	ml := 1
+	if !w.Quick() {
+		ml = 2
+	}
+	add := func(ops []mixOp) {
+		st, full, ok := mixStream(ops, true)
+		if !ok {
+			return
+		}
+		M, F, err := refCounts(st)
+		if err != nil {
+			return
+		}
+		words = append(words, word{mixWordString(full), st, M, F})
+	}
+	add(nil)
+	seqWords(len(alpha), ml, func(int64) bool { return true }, func(wd []int) bool {
+		var ops []mixOp
+		for _, a := range wd {
+			ops = append(ops, alpha[a])
+		}
+		add(ops)
+		return true
+	})
+	var idx int64
+	for _, a := range words {
+		for _, b := range words {
+			idx++
+			if !w.Mine(idx) {
+				continue
+			}
+			if w.Expired("chains") {
+				return
+			}
+			members := []word{a, b}
+			data := fitmodel.Concat(a.b, b.b)
+			base := safeDecodeChained(bytes.NewReader(data))
+			name := "[" + a.name + "] + [" + b.name + "]"
+			rep := c16Replay{Names: name, Hex: vx.Hex(data), Generic: true, Chain: []int{len(a.b), len(b.b)}}
+			w.Fam("chains-all-options", 1)
+			if base.Err != nil || base.Panic != "" || len(base.Files) != 2 {
+				continue // C10's subject
+			}
+			for cfg := 1; cfg < len(c16Configs); cfg++ {
+				if msg, class := c16ChainCheck(data, []int{len(a.b), len(b.b)}, cfg, base.Files, [](map[int]int){members[0].M, members[1].M}, [](map[uint32]int){members[0].F, members[1].F}); msg != "" {
+					w.Violation("chain/"+class, name+": "+msg, rep)
+					break
+				}
+				w.Eval(1)
+				w.Trace(1)
+			}
+		}
+	}
+}
+
+func c16ChainCheck(data []byte, lens []int, cfg int, base []*fit.File, Ms []map[int]int, Fs []map[uint32]int) (string, string) {
+	var opts []fit.DecodeOption
+	for _, o := range c16Configs[cfg] {
+		switch o {
+		case 1:
+			opts = append(opts, fit.WithLogger(&nullLogger{}))
+		case 2:
+			opts = append(opts, fit.WithUnknownFields())
+		case 4:
+			opts = append(opts, fit.WithUnknownMessages())
+		}
+	}
+	on := optName(cfg)
+	bits := cfgBits(cfg)
+	res := safeDecodeChained(bytes.NewReader(data), opts...)
+	if res.Panic != "" {
+		return fmt.Sprintf("options %s: DecodeChained panics: %s", on, res.Panic), "panic"
+	}
+	if res.Err != nil || len(res.Files) != len(base) {
+		return fmt.Sprintf("options %s: DecodeChained returns %d files, err=%v; without options %d files", on, len(res.Files), res.Err, len(base)), "options-change-error"
+	}
+	for i, f := range res.Files {
+		if dumpFileContent(f) != dumpFileContent(base[i]) {
+			return fmt.Sprintf("options %s change the content of member %d", on, i), "options-change-content"
+		}
+		if (bits&2 == 0 && f.UnknownFields != nil) || (bits&4 == 0 && f.UnknownMessages != nil) {
+			return fmt.Sprintf("options %s: member %d has a list without its option", on, i), "lists-without-option"
+		}
+		if bits&4 != 0 {
+			got := map[int]int{}
+			for _, u := range f.UnknownMessages {
+				got[int(u.MesgNum)] = u.Count
+			}
+			if f.UnknownMessages == nil || !reflect.DeepEqual(got, Ms[i]) {
+				return fmt.Sprintf("options %s: member %d UnknownMessages %v, the member alone has %v", on, i, got, Ms[i]), "unknown-message-count"
+			}
+		}
+		if bits&2 != 0 {
+			got := map[uint32]int{}
+			for _, u := range f.UnknownFields {
+				got[uint32(u.MesgNum)<<8|uint32(u.FieldNum)] = u.Count
+			}
+			if f.UnknownFields == nil || !reflect.DeepEqual(got, Fs[i]) {
+				return fmt.Sprintf("options %s: member %d UnknownFields %v, the member alone has %v", on, i, got, Fs[i]), "unknown-field-count"
+			}
+		}
+	}
+	return "", ""
 }
